@@ -36,8 +36,9 @@ TEXT = {
             "(composite elements; pop = clear + summarise the emptied subtree found by the climb over trailing zero bits) "
             "and union change preserve representation, as single steps and as arbitrary valid histories over values, "
             "composing through any nesting depth; lists of ANY element type incl. packed basic elements (chunk splicing, "
-            "append into the partial last chunk or a new chunk, pop with chunk drop + summarise) and packed vectors. Bit "
-            "operations: correspondence on histories (each step vs model and vs fresh value).",
+            "append into the partial last chunk or a new chunk, pop with chunk drop + summarise), packed vectors, and the "
+            "bit operations (bit set, Bitlist append / pop). Python methods vs. model functions, argument coercion: "
+            "correspondence on histories (each step vs model and vs fresh value).",
             "Coq proof (CRep / Repr invariants, induction on depth, types and histories) + correspondence", "5 (C04)"),
     "C05": ("Theorems on the store-of-view-cells model (hooks as data): a write through a child view stores the new backing "
             "in the child and, through its hook, at the child's position in the parent; the parent then reads back exactly "
